@@ -10,6 +10,7 @@ def main():
     genlib.setup(lang, dis_use=sw["disUse"], dis_contra=sw["disContra"], no_bounds=sw["noBounds"], no_param_fn=sw["noParamFn"])
     import pser
     import scan
+    import surface
     swn = "".join("1" if sw[k] else "0" for k in ("disUse", "disContra", "noBounds", "noParamFn"))
 
     def probes(a):
@@ -37,6 +38,15 @@ def main():
                 ps.add(("new_inferred", e["t"]["n"]))
             elif e["ev"] == "Const" and e["lit"] == "string":
                 ps.add(("str", e["text"]))
+            elif e["ev"] == "Const" and e["lit"] in ("int", "real"):
+                e["abs"] = e["text"].lstrip("-")
+                ps.add(("lit", e["abs"]))
+            elif e["ev"] == "BinOp":
+                ps.add(("op", e["op"]))
+            elif e["ev"] == "ParamDecl":
+                ps.add(("param", e["name"]))
+            elif e["ev"] == "Call" and e["targs"]:
+                ps.add(("call_targs", e["name"]))
         ps.add(("balanced", ""))
         return sorted(ps)
 
@@ -59,7 +69,10 @@ def main():
                          tcounts=[[k, o, t, scan.count_tparam(lang, text, k, o, t)] for k, o, t in tps])
                 del a["ct"]
                 del a["g"]
-                a["ct"] = {c: {"tp": v["tp"]} for c, v in pser.ser_program(prog, walk=False)["ct"].items()}
+                a["ct"] = {c: (v if v["kind"] != "builtin" else {"tp": v["tp"], "kind": "builtin"}) for c, v in pser.ser_program(prog, walk=False)["ct"].items()}
+                for v in a["ct"].values():
+                    v.pop("funs", None)
+                a["surface"] = surface.surface(lang, text)
                 progs.append(a)
         return progs
     progs = genlib.in_big_stack(work)
